@@ -136,3 +136,35 @@ func verifL_Race_Invalidator() {
 	verifFinally(func() { verifReach("both operations completed") })
 	verifRunThreads()
 }
+
+// Writes that carry a per-call TTL into a cache configured with UnlimitedTTL (they bump the shared
+// expirations counter), against each other (different shards), against ExpireAll and against a cleanup
+// cycle, under the race predicate.
+func verifL_Race_TTL(kind int) {
+	verifOption("races")
+	verifOption("nofuse")
+	opB := verifChoice("opB", 3) // 0: Write of another key with TTL, 1: ExpireAll, 2: cleanup cycle
+	b := verifNewBackend(kind, Config{TimeToLive: UnlimitedTTL, ExpirationJitter: -1})
+	now := verifInt64("now")
+	verifAssume(now >= verifT0 && now <= verifT1)
+	verifClockFn = func() int64 { return now }
+	b.put([]byte("a"), 1, 0, 0)
+	ctx := WithTTL(context.Background(), time.Minute, false)
+	verifThread("Write with TTL", func() { _ = b.write(ctx, []byte("a"), 2) })
+	verifThread([]string{"Write(other key) with TTL", "ExpireAll", "cleanup cycle"}[opB], func() {
+		switch opB {
+		case 0:
+			_ = b.write(ctx, []byte("b"), 3) // xxhash%128: "a" 91, "b" 27 - different shards
+		case 1:
+			b.expAll(context.Background())
+		default:
+			b.cleanup()
+		}
+	})
+	verifFinally(func() { verifReach("both operations completed") })
+	verifRunThreads()
+}
+
+func verifL_Race_TTL_ShardedMap()   { verifL_Race_TTL(0) }
+func verifL_Race_TTL_SyncMap()      { verifL_Race_TTL(1) }
+func verifL_Race_TTL_ShardedMapOf() { verifL_Race_TTL(2) }
